@@ -240,11 +240,22 @@ func ruleSchemaEmbed(c *Ctx, r *Report) {
 			if as, ok := n.(*ast.AssignStmt); ok && len(as.Lhs) == 1 {
 				if ix, ok := as.Lhs[0].(*ast.IndexExpr); ok && paramIndex(f, ObjOf(info, ix.X)) == 2 && paramIndex(f, ObjOf(info, as.Rhs[0])) == 0 {
 					idx = true
+					// no early exit may precede the indexing (an entry with a structname annotation is always indexed).
+					for _, rs := range returnsOf(f.Decl.Body) {
+						if rs.Pos() < as.Pos() {
+							idx = false
+						}
+					}
+					for _, ft := range c.FactsAt(f, as, false) {
+						if ft.Kind == "cond" && !ft.Pos {
+							idx = false
+						}
+					}
 				}
 			}
 			return true
 		})
-		r.Check(idx, "ygot.rebuildSchemaMap:indexes-structname", c.Pos(f.Decl.Pos()), "schema[structname] = e", "rebuildSchemaMap does not index annotated entries by struct name")
+		r.Check(idx, "ygot.rebuildSchemaMap:indexes-structname", c.Pos(f.Decl.Pos()), "schema[structname] = e for every annotated entry, before any exit", "rebuildSchemaMap does not index every entry that carries a structname annotation (an early exit or extra condition precedes the indexing): e.g. childless containers, whose Dir is omitted from the JSON, vanish from the schema map")
 	}
 }
 
